@@ -27,7 +27,7 @@ prop(
          "settings blocks and smelly regexp selectors); "
          "layers 2/3: one evaluation = one invocation of the (race-instrumented) binary with --workers in {1,2,3,7,16,64} x "
          "GOMAXPROCS in {1,2,16} (6 settings per input quick, all 18 thorough; (1,1) is canonical), two fifths of the inputs online "
-         "against a fake Prometheus (1-2 servers; in two thirds of them the main URI answers 504 for a drawn subset of query "
+         "against a fake Prometheus (1-2 servers; in three quarters of them the main URI answers 504 for a drawn subset of query "
          "expressions and a failover URI answers everything), a third with an extra 40-160 rule group or the same volume spread over 10-40 files with recording rules repeated across files; prometheus{} blocks carry include/exclude path filters and tags (servers on closed ports for --offline inputs). A Go runtime 'fatal error:' in any run is a violation. Non-trivial: >= 8 reports, >= 2 files with reports, >= 1 duplicate group, >= 2 reports with "
          "equal (path, first line). distinct = distinct report multisets (layer 1) / distinct inputs (layers 2/3).",
     level_text="Generated-input search. Layer 1 owns the schedule of the only cross-goroutine channel (the report stream) and "
